@@ -6,11 +6,11 @@
 package c18
 
 import (
-	"os"
 	"encoding/base64"
 	"encoding/json"
 	"fmt"
 	"math/big"
+	"os"
 	"sync"
 	"time"
 
@@ -22,6 +22,7 @@ import (
 	"pgregory.net/rapid"
 
 	"verif/internal/ctfex"
+	"verif/internal/harness"
 	"verif/internal/keys"
 	"verif/internal/pki"
 	"verif/internal/world"
@@ -243,12 +244,20 @@ type ChainKind struct {
 	// Lone: the submission is ONE certificate, a self-signed root with the drawn NotAfter that the log
 	// trusts (RFC 6962 s3.1 lets a chain consist of a root); its NotAfter is judged like any leaf's.
 	Lone bool `json:",omitempty"`
+	// NB places the leaf's NotBefore relative to its NotAfter: 0 ninety days earlier (ordinary), 1 one
+	// second earlier, 2 equal, 3 one second LATER, 4 one year LATER. Admission window and shard choice
+	// depend on NotAfter alone, so the other end of the validity period must not matter to either side.
+	NB int `json:",omitempty"`
 }
+
+var nbOffsets = []time.Duration{-90 * 24 * time.Hour, -time.Second, 0, time.Second, 365 * 24 * time.Hour}
 
 func genChainKind(t *rapid.T) ChainKind {
 	k := ChainKind{Root: rapid.IntRange(0, len(world.RootKinds)-1).Draw(t, "root"), Inter: rapid.Bool().Draw(t, "inter"), Precert: rapid.IntRange(0, 3).Draw(t, "pre") == 0}
 	if rapid.IntRange(0, 5).Draw(t, "lone") == 0 {
 		k = ChainKind{Root: k.Root, Lone: true}
+	} else if rapid.IntRange(0, 3).Draw(t, "nbodd") == 0 {
+		k.NB = rapid.IntRange(1, 4).Draw(t, "nb")
 	}
 	return k
 }
@@ -375,6 +384,9 @@ func intermediate(root int) *pki.Cert {
 // chain is validated once without any window: a chain the front end refuses for another reason would
 // make every "outside" expectation pass vacuously.
 func chainFor(sec int64, k ChainKind) *chain {
+	if k.NB < 0 || k.NB >= len(nbOffsets) {
+		k.NB = 0
+	}
 	if sec < minCert || sec > maxCert {
 		panic(fmt.Sprintf("c18: NotAfter %d outside the certificate range", sec))
 	}
@@ -415,11 +427,15 @@ func chainFor(sec int64, k ChainKind) *chain {
 	lk := keys.Pick("p256", int(sec%7))
 	serial := new(big.Int).SetInt64(sec - minCert + 1)
 	serial.Lsh(serial, 4).Add(serial, big.NewInt(int64(k.Root*4)+b2i(k.Inter)*2+b2i(k.Precert)))
+	serial.Lsh(serial, 3).Add(serial, big.NewInt(int64(k.NB%len(nbOffsets))))
 	t := pki.LeafTemplate(cn, lk, 1, pki.KeyID(issuer.Key))
 	t.Serial = serial
 	na := time.Unix(sec, 0).UTC()
 	t.NotAfter = na
-	t.NotBefore = na.Add(-90 * 24 * time.Hour)
+	t.NotBefore = na.Add(nbOffsets[k.NB%len(nbOffsets)])
+	if end := time.Unix(maxCert, 0).UTC(); t.NotBefore.After(end) {
+		t.NotBefore = end // year 9999 is the last an X.509 time can name
+	}
 	if k.Precert {
 		t.Exts = append([]pki.Ext{pki.Poison()}, t.Exts...)
 	}
@@ -503,5 +519,16 @@ func relClass(b, t Inst) string {
 			return "+1s"
 		}
 		return "after"
+	}
+}
+
+func chainClasses(v *harness.Verdict, k ChainKind) {
+	switch {
+	case k.Lone:
+		v.Class("chain:lone-root")
+	case k.NB >= 3:
+		v.Class("chain:notbefore-after-notafter")
+	case k.NB > 0:
+		v.Class("chain:notbefore-at-notafter")
 	}
 }
